@@ -607,6 +607,31 @@ func (l *lemmas) discharge(s panicSite, nilFields map[string]bool) (ok bool, tri
 				return false, false, "index is a SIGNED value modulo len(slice): after the dividend wraps to a negative number the remainder is negative (index out of range)"
 			}
 		}
+		// (d) every path to the access tests idx < len (the array's constant length or len of the same slice), and the index
+		// cannot be negative (an unsigned value, or a counter that starts at a non-negative constant and only grows)
+		{
+			arrLen := int64(-1)
+			if pt, isP := s.subject.Type().Underlying().(*types.Pointer); isP {
+				if at, isA := pt.Elem().Underlying().(*types.Array); isA {
+					arrLen = at.Len()
+				}
+			}
+			if at, isA := s.subject.Type().Underlying().(*types.Array); isA {
+				arrLen = at.Len()
+			}
+			isBound := func(v ssa.Value) bool {
+				if k, isC := constInt(v); isC && arrLen >= 0 && k <= arrLen {
+					return true
+				}
+				call, ok := stripConv(v).(*ssa.Call)
+				return ok && calleeOf(&call.Call).Builtin == "len" && kstr(call.Call.Args[0]) == kstr(s.subject)
+			}
+			ensureEquiv(fn)
+			bcs := newCondSpace(fn, recOf(ltAtom("inBounds", isVal(idx), isBound)), "inBounds")
+			if imp, _ := bcs.Implies(bcs.Reach(s.in), bcs.Atom("inBounds")); imp && bcs.Seen("inBounds") && nonNegative(idx, map[ssa.Value]bool{}) {
+				return true, false, "every path to the access tests the index against the length, and the index is never negative"
+			}
+		}
 		return false, false, "index " + vstr(idx) + " is not bounded by a recognised guard"
 	case "div":
 		if convOf(lenOfField("gcpBalancer.scRefList"))(s.subject) {
@@ -1246,4 +1271,44 @@ func trivialPhi(v ssa.Value) ssa.Value {
 		v = stripConv(ph.Edges[0])
 	}
 	return v
+}
+
+// nonNegative: v is an unsigned value, a non-negative constant, a length, or built from such by addition and merging
+// (a counter `n := 0; …; n++`); wrap-around of 64-bit counters is not considered.
+func nonNegative(v ssa.Value, seen map[ssa.Value]bool) bool {
+	v = cellValue(v)
+	if seen[v] {
+		return true // a loop-carried value: holds if it holds for every other way in
+	}
+	seen[v] = true
+	if b, ok := v.Type().Underlying().(*types.Basic); ok && b.Info()&types.IsUnsigned != 0 {
+		return true
+	}
+	switch x := v.(type) {
+	case *ssa.Const:
+		k, ok := constInt(x)
+		return ok && k >= 0
+	case *ssa.Phi:
+		for _, e := range x.Edges {
+			if !nonNegative(e, seen) {
+				return false
+			}
+		}
+		return true
+	case *ssa.BinOp:
+		if x.Op == token.ADD || x.Op == token.MUL {
+			return nonNegative(x.X, seen) && nonNegative(x.Y, seen)
+		}
+	case *ssa.Call:
+		b := calleeOf(&x.Call).Builtin
+		return b == "len" || b == "cap"
+	case *ssa.Convert:
+		// a narrower unsigned value converted to int/int64 keeps its value
+		if b, ok := x.X.Type().Underlying().(*types.Basic); ok && b.Info()&types.IsUnsigned != 0 {
+			if t, ok2 := x.Type().Underlying().(*types.Basic); ok2 && (t.Kind() == types.Int64 || t.Kind() == types.Int) {
+				return b.Kind() != types.Uint64 && b.Kind() != types.Uint && b.Kind() != types.Uintptr
+			}
+		}
+	}
+	return false
 }
